@@ -724,7 +724,7 @@ def r3(ctx, sc, gnb):
         for br, t in deps:
             if any(cell_role(l) == 'OURBUF' for d, l in flow.cond_loads(gnb, br, a.res)):
                 cands.append((st, br, t))
-    if 'reject' in v.feats:
+    if 'M4_MODE_USES_REJECT' in variants.mode_symbols(v):      # also follows from variable trailing context
         if cands:
             rep.note('%s: REJECT variant has a growth arm in yy_get_next_buffer' % v.name)
         return 0
